@@ -1411,6 +1411,92 @@ def _blocks(f):
 _cache = {}
 
 
+def _unify_read_variable(f, notes):
+    """One variable for the character under the cursor.  A branch of the
+    main loop whose inner scanning loop reads into a variable of its own
+    (``c2 = text[pos]`` - what inlining a scanning helper leaves behind) is
+    rewritten to the single-variable form: the inner variable becomes the
+    main one; where the branch still needs the character that opened it
+    inside or after the inner loop, that character is first saved
+    (``first = char``), as the single-variable form has to do as well."""
+    text = f.args.args[0].arg if f.args.args else None
+    reads = []
+    for st in walk_no_nested(f):
+        if isinstance(st, ast.Assign) and len(st.targets) == 1 and isinstance(
+                st.targets[0], ast.Name) and isinstance(
+                    st.value, ast.Subscript) and isinstance(
+                        st.value.value, ast.Name) and \
+                st.value.value.id == text and isinstance(
+                    st.value.slice, ast.Name):
+            reads.append(st)
+    names = []
+    for r in reads:
+        if r.targets[0].id not in names:
+            names.append(r.targets[0].id)
+    if len(names) < 2:
+        return
+    _set_parents(f)
+    # the main variable: the one read directly in the outermost loop
+    def depth(st):
+        d, p = 0, getattr(st, '_parent', None)
+        while p is not None and p is not f:
+            if isinstance(p, (ast.While, ast.For)):
+                d += 1
+            p = getattr(p, '_parent', None)
+        return d
+    main = min(reads, key=depth).targets[0].id
+    k = 0
+    for r in reads:
+        c2 = r.targets[0].id
+        if c2 == main:
+            continue
+        # the inner loop and the branch (block) that contains it
+        lp = getattr(r, '_parent', None)
+        while lp is not None and not isinstance(lp, (ast.While, ast.For)):
+            lp = getattr(lp, '_parent', None)
+        if lp is None:
+            continue
+        holder = getattr(lp, '_parent', None)
+        blk = None
+        for fld in ('body', 'orelse'):
+            b = getattr(holder, fld, None)
+            if isinstance(b, list) and lp in b:
+                blk = b
+        if blk is None:
+            continue
+        idx = blk.index(lp)
+        later = blk[idx:]
+        uses_main = any(isinstance(y, ast.Name) and y.id == main
+                        for st in later for y in ast.walk(st))
+        if any(isinstance(y, ast.Name) and y.id == main and isinstance(
+                y.ctx, ast.Store) for st in later for y in ast.walk(st)):
+            continue
+        if uses_main:
+            k += 1
+            saved = f'first_char' if k == 1 else f'first_char{k}'
+            used = {n.id for n in ast.walk(f) if isinstance(n, ast.Name)}
+            if saved in used:
+                continue
+            for st in later:
+                for y in ast.walk(st):
+                    if isinstance(y, ast.Name) and y.id == main:
+                        y.id = saved
+            a = ast.Assign(targets=[ast.Name(id=saved, ctx=ast.Store())],
+                           value=ast.Name(id=main, ctx=ast.Load()))
+            ast.copy_location(a, blk[0])
+            ast.fix_missing_locations(a)
+            blk.insert(0, a)
+            later = blk[idx + 1:]
+        for st in later:
+            for y in ast.walk(st):
+                if isinstance(y, ast.Name) and y.id == c2:
+                    y.id = main
+        notes.append(f'the characters read into "{c2}" are read into '
+                     f'"{main}" (one variable for the character under the '
+                     'cursor)')
+    _set_parents(f)
+
+
 def normalised_scanner(m, fname='parse_smtlib'):
     """-> (function AST in normal form, verdicts, notes).  The original
     tree is not modified."""
@@ -1423,8 +1509,9 @@ def normalised_scanner(m, fname='parse_smtlib'):
         if hasattr(f0, a):
             setattr(f, a, getattr(f0, a))
     f._parent = getattr(f0, '_parent', None)
-    _rename(f, _canonical_names(f))
     verdicts, notes = [], []
+    _unify_read_variable(f, notes)
+    _rename(f, _canonical_names(f))
     while _sink_shared_tail(f, notes):
         pass
     _lower_ifexp_assign(f)
